@@ -3,6 +3,7 @@
 package spynode
 
 import (
+	"math/rand"
 	"sync"
 	"context"
 	"fmt"
@@ -23,7 +24,7 @@ import (
 // ---- C19 (L1): Stop always terminates, persists, silences handlers ---------------------------------------
 
 var c19Points = []string{"refused", "silent", "header-sync", "blocks-outstanding", "inside-process-block",
-	"consumer-exit-full-channel", "in-sync-traffic", "between-shutdown-phases", "reconnect-loop", "lost-connection-resume", "tx-backlog"}
+	"consumer-exit-full-channel", "in-sync-traffic", "between-shutdown-phases", "reconnect-loop", "lost-connection-resume", "tx-backlog", "block-fetch-fault"}
 
 var goroutineHdr = regexp.MustCompile(`(?m)^goroutine \d+ \[([^\]]+)\]:\n([^\n]+)\n`)
 
@@ -70,7 +71,7 @@ type c19Result struct {
 
 func TestVerif_C19(t *testing.T) {
 	rep := verifkit.NewReport("C19")
-	rep.Rule = "each case starts the real Node.Run against a scripted TCP peer and requests Stop at a generated point: connection refused, accepted-but-silent peer, during header sync of a 2100-block chain, with 10 block requests outstanding (peer withholds bodies), inside ProcessBlock (handler parked in HandleHeaders until Stop has returned, at most 1.5 s), after the tx consumer exited on an error with the tx channel full, in sync with transaction traffic, with a backlog of transactions behind a slow handler, between the shutdown phases (hooks node.stop.* sleep), in the reconnect loop (peer closes every connection), after a lost connection was resumed. Oracle: Stop and Run return (else two goroutine dumps 3 s apart: identical blocked node goroutines = deadlock witness, otherwise inconclusive), no handler callback after Stop returned, a fresh node on the storage loads the stopped node's chain and unconfirmed set, a peers file exists, and after a lost connection no (height, hash) is announced twice. Non-trivial = every case; distinct by (stop point, delay class, outcome)"
+	rep.Rule = "each case starts the real Node.Run against a scripted TCP peer and requests Stop at a generated point: connection refused, accepted-but-silent peer, during header sync of a 2100-block chain, with 10 block requests outstanding (peer withholds bodies), inside ProcessBlock (handler parked in HandleHeaders until Stop has returned, at most 1.5 s), after the tx consumer exited on an error with the tx channel full, in sync with transaction traffic, with a backlog of transactions behind a slow handler while the application keeps submitting its own, after a block failed in the middle of its processing (output fetcher error), between the shutdown phases (hooks node.stop.* sleep), in the reconnect loop (peer closes every connection), after a lost connection was resumed. Oracle: Stop and Run return (else two goroutine dumps 3 s apart: identical blocked node goroutines = deadlock witness, otherwise inconclusive), no handler callback after Stop returned, a fresh node on the storage loads the stopped node's chain and unconfirmed set, a peers file exists, and after a lost connection no (height, hash) is announced twice. Non-trivial = every case; distinct by (stop point, delay class, outcome)"
 	rep.Assumptions = []string{"a stuck Stop is decided by the stable-deadlock signature of two goroutine dumps, not by the watchdog timer", "handler parking is bounded (300 ms) so that Stop can return"}
 	defer rep.Write()
 
@@ -169,6 +170,14 @@ func c19Case(rep *verifkit.Report, ci int, point string, delayMS int, seed int64
 	go func() { e.runDone <- e.node.Run(runCtx) }()
 
 	inSync := func() bool { return e.node.state.IsReady() && e.node.blocks.LastHeight() >= tip.Height }
+	var feederPanic atomic.Value
+	mkMu := sync.Mutex{}
+	r2 := rand.New(rand.NewSource(seed + 77))
+	mkTxLocked := func() *wire.MsgTx {
+		mkMu.Lock()
+		defer mkMu.Unlock()
+		return uni.Build(r2, verifkit.TxSpec{Inputs: []wire.OutPoint{uni.Order[r2.Intn(len(uni.Order))]}, Outputs: [][]byte{verifkit.P2PKH(sub)}})
+	}
 	mkTx := func() *wire.MsgTx {
 		return uni.Build(r, verifkit.TxSpec{Inputs: []wire.OutPoint{uni.Order[r.Intn(len(uni.Order))]}, Outputs: [][]byte{verifkit.P2PKH(sub)}})
 	}
@@ -237,13 +246,28 @@ func c19Case(rep *verifkit.Report, ci int, point string, delayMS int, seed int64
 		e.log.mu.Lock()
 		e.log.onEvent = func(ev recEvent) {
 			if ev.Kind == "tx" && ev.Handler == 0 {
-				time.Sleep(120 * time.Millisecond)
+				time.Sleep(40 * time.Millisecond)
 			}
 		}
 		e.log.mu.Unlock()
 		for i := 0; i < 10; i++ {
 			sendToNode(mkTx())
 		}
+		// the application submits transactions of its own all the while (Node.HandleTx), also
+		// during the stop: a call is refused with an error once the node shuts down, it must not
+		// blow up in the caller
+		go func() {
+			defer func() {
+				if p := recover(); p != nil {
+					feederPanic.Store(fmt.Sprintf("%v @ %s", p, verifkit.PanicFrame()))
+				}
+			}()
+			for i := 0; i < 160; i++ {
+				if e.node.HandleTx(quietCtx, mkTxLocked()) != nil {
+					return
+				}
+			}
+		}()
 		waitCond(3*time.Second, func() bool {
 			for _, ev := range e.log.snapshot() {
 				if ev.Kind == "tx" {
@@ -253,6 +277,19 @@ func c19Case(rep *verifkit.Report, ci int, point string, delayMS int, seed int64
 			return false
 		})
 		time.Sleep(time.Duration(delayMS/4) * time.Millisecond)
+	case "block-fetch-fault":
+		// a block fails in the middle of its processing: it holds a new relevant transaction whose
+		// spent output must be fetched, and the fetcher fails
+		if !waitCond(4*time.Second, inSync) {
+			rep.Inconc(ci, "node did not get in sync")
+		}
+		e.fetch.mu.Lock()
+		e.fetch.fail = true
+		e.fetch.mu.Unlock()
+		peer.mu.Lock()
+		peer.sim.tip = tree.Extend(peer.sim.tip, []*wire.MsgTx{mkTxLocked()})
+		peer.mu.Unlock()
+		time.Sleep(time.Duration(300+delayMS) * time.Millisecond)
 	case "in-sync-traffic", "between-shutdown-phases":
 		if !waitCond(4*time.Second, inSync) {
 			rep.Inconc(ci, "node did not get in sync")
@@ -342,6 +379,9 @@ func c19Case(rep *verifkit.Report, ci int, point string, delayMS int, seed int64
 		}
 		// leave the stuck node behind; its peer is shut down by the deferred call
 		return res
+	}
+	if p := feederPanic.Load(); p != nil {
+		rep.Finding(ci, "C19/panic-in-application-call-during-stop/"+point, fmt.Sprintf("Node.HandleTx called by the application while the node was stopping panicked: %v", p), nil)
 	}
 	// ---- after stop: silence
 	time.Sleep(250 * time.Millisecond)
